@@ -26,6 +26,7 @@ type c06Case struct {
 	Cands    int        `json:"cands"`     // candidate node mask
 	BindPick int        `json:"bind_pick"`
 	BindAll  bool       `json:"bind_all"` // thorough: bind every returned node on a rebuilt world
+	Restart  bool       `json:"restart"`  // galaxy-ipam is restarted (memory rebuilt from the store) before the pod is filtered
 }
 
 func genC06() *rapid.Generator[c06Case] {
@@ -59,6 +60,7 @@ func genC06() *rapid.Generator[c06Case] {
 			c.Cands = 255
 		}
 		c.BindPick = rapid.IntRange(0, 7).Draw(t, "bindPick")
+		c.Restart = rapid.IntRange(0, 3).Draw(t, "restart") == 0
 		return c
 	})
 }
@@ -160,6 +162,11 @@ func setupC06(c *c06Case) (*Exec, *PodRec, map[string]bool, []string, *vcore.Fai
 			}
 		}
 	}
+	if c.Restart {
+		if err := w.Restart(); err != nil {
+			return nil, nil, nil, nil, vcore.Failf("harness:restart", "restart failed: %v", err)
+		}
+	}
 	return x, pod, free, held, nil
 }
 
@@ -198,6 +205,7 @@ func checkC06(c c06Case, r *vcore.Rec) *vcore.Failure {
 	r.ClassIf(len(held) > 0, "pod_holds_ip")
 	r.ClassIf(len(held) > 1, "pod_holds_two_ips")
 	r.ClassIf(len(c.WL.Ranges) > 0, "request_ranges")
+	r.ClassIf(c.Restart, "restarted_before_filter")
 	r.ClassIf(c.WL.PolicyNum() == 0 && len(held) == 0, "fresh_default_pod")
 	if err != nil {
 		r.Class("filter_error")
